@@ -195,6 +195,35 @@ func monC11(w *World, f *Facts, forced bool, racingCancel int) []Violation {
 			}
 		}
 	}
+	// 5. forced: every job that is still running when the forced branch takes the lock is told to stop and ends canceled
+	if forced && f.Log[ret].Err == "ctxcanceled" {
+		nUnlock := 0
+		for k := call; k < ret; k++ {
+			if f.Log[k].Kind == EvUnlock && f.Log[k].Thread == thread {
+				nUnlock++
+				if nUnlock == 2 {
+					if d := f.dumpBefore(k); d != nil {
+						for i := range d.Jobs {
+							sj := &d.Jobs[i]
+							if !sj.Running() {
+								continue
+							}
+							j := f.Jobs[sj.Idx]
+							fj := final.Job(sj.Idx)
+							if j.CancelCalledEv < 0 {
+								vs = append(vs, Violation{Property: "C11", Rule: "forced-cancels-running", Norm: "forced-shutdown-does-not-stop-running-job",
+									Msg: fmt.Sprintf("forced shutdown: job %d was running when the deadline was noticed but its task runner was never told to stop", sj.Idx)})
+							}
+							if fj != nil && !fj.Canceled {
+								vs = append(vs, Violation{Property: "C11", Rule: "forced-cancels-running", Norm: "forced-shutdown-running-job-not-canceled",
+									Msg: fmt.Sprintf("forced shutdown: job %d was running when the deadline was noticed but ends %s", sj.Idx, jobStr(fj))})
+							}
+						}
+					}
+				}
+			}
+		}
+	}
 	return dedupV(vs)
 }
 
